@@ -143,15 +143,75 @@ class Decomp(ast.NodeTransformer):
         return node
 
 
+FUNC_PARAMS = {}
+METHOD_PARAMS = {}
+
+
+def collect_signatures(root):
+    import collections
+    fcount = collections.Counter()
+    for dp, dn, fn in os.walk(os.path.join(root, "molgri")):
+        for f in fn:
+            if not f.endswith(".py"):
+                continue
+            t = ast.parse(open(os.path.join(dp, f)).read())
+            for n in t.body:
+                if isinstance(n, ast.FunctionDef):
+                    a = n.args
+                    if a.vararg or a.posonlyargs:
+                        FUNC_PARAMS[n.name] = None
+                    else:
+                        fcount[n.name] += 1
+                        FUNC_PARAMS.setdefault(n.name, [x.arg for x in a.args])
+                elif isinstance(n, ast.ClassDef):
+                    for b in n.body:
+                        if isinstance(b, ast.FunctionDef):
+                            a = b.args
+                            ps = None if (a.vararg or a.posonlyargs or not a.args) else [x.arg for x in a.args[1:]]
+                            if b.name in METHOD_PARAMS and METHOD_PARAMS[b.name] != ps:
+                                METHOD_PARAMS[b.name] = None      # ambiguous across classes
+                            else:
+                                METHOD_PARAMS.setdefault(b.name, ps)
+    for k, c in fcount.items():
+        if c > 1:
+            FUNC_PARAMS[k] = None
+
+
+class Kwargs(ast.NodeTransformer):
+    """positional arguments of calls to repository functions / self-methods become keyword arguments"""
+    def visit_Call(self, node):
+        self.generic_visit(node)
+        if any(isinstance(a, ast.Starred) for a in node.args) or any(k.arg is None for k in node.keywords):
+            return node
+        ps = None
+        if isinstance(node.func, ast.Name):
+            ps = FUNC_PARAMS.get(node.func.id)
+        elif isinstance(node.func, ast.Attribute) and isinstance(node.func.value, ast.Name) and node.func.value.id == "self":
+            ps = METHOD_PARAMS.get(node.func.attr)
+        if not ps or len(node.args) > len(ps) or not node.args:
+            return node
+        given = {k.arg for k in node.keywords}
+        new_kw = []
+        for a, p_ in zip(node.args, ps):
+            if p_ in given:
+                return node
+            new_kw.append(ast.keyword(arg=p_, value=a))
+        node.keywords = new_kw + node.keywords
+        node.args = []
+        return node
+
+
 d = tempfile.mkdtemp(prefix="verif_ast_")
 for sub in ("molgri", "workflow"):
     shutil.copytree(os.path.join("/repo", sub), os.path.join(d, sub), ignore=shutil.ignore_patterns("__pycache__", "*.pyc"))
+if mode == "kwargs":
+    collect_signatures(d)
 for dp, dn, fn in os.walk(os.path.join(d, "molgri")):
     for f in fn:
         if f.endswith(".py"):
             p = os.path.join(dp, f)
             t = ast.parse(open(p).read())
-            t = {"retvar": RetVar, "ifswap": IfSwap, "hoist": Hoist, "marker": Marker, "annassign": AnnAssign, "decomp": Decomp}[mode]().visit(t)
+            t = {"retvar": RetVar, "ifswap": IfSwap, "hoist": Hoist, "marker": Marker, "annassign": AnnAssign, "decomp": Decomp, "kwargs": Kwargs}[mode]().visit(t)
             ast.fix_missing_locations(t)
             open(p, "w").write(ast.unparse(t) + "\n")
 print(d)
